@@ -696,6 +696,163 @@ def canyon_albedo_consistency(chk, violation):
                'is on every wall', mismatches=bad, branches=br)
 
 
+# ------------------------------------------------------------------------------- nearly equal surface temperatures
+NEAR_STEPS = [F(m) / F(10) ** k for k in range(3, 13) for m in (1, 3, 8)]      # 1e-3 .. 8e-13 K
+
+
+def near_infra_cases(rng, n, geom_us):
+    """road and wall surface temperatures 1e-3 .. 1e-12 K from each other (either sign), the situation of every
+    evening / morning crossing of the two temperatures in a run; consistent (reciprocal) geometry, so that the
+    exact antisymmetry oracle applies."""
+    out = []
+    for i in range(n):
+        c = gen_infra(rng, 'recip', geom_u=rng.choice(geom_us) if geom_us and i % 2 else None)
+        c['kind'] = 'near'
+        d = NEAR_STEPS[i % len(NEAR_STEPS)] * rng.choice([1, -1])
+        if i % 7 == 6:
+            d = d + F(rng.randint(1, 999), 10 ** 15)
+        c['tw'] = c['tr'] + d
+        out.append(c)
+    return out
+
+
+def near_float_pass(chk, violation):
+    """float level, real package, real UCMDef geometry: the exchange terms isolated by putting the sky in
+    equilibrium with the RECEIVING surface (its own sky term is then exactly 0.0) and compared RELATIVE to the
+    exchange itself - an absolute tolerance is blind below 1e-3 K of temperature difference."""
+    import uwg
+    rng = chk.rng
+    quick = chk.tier == 'quick'
+    geos = [(10., .5, .8), (30., .55, 2.), (60., .25, 6.), (5., .1, .2), (100., .4, 12.), (20., .6, 3.)]
+    temps = [250., 273.15, 280., 293.15, 300.61460903871216, 330.]
+    if not quick:
+        geos += [(rng.uniform(3, 120), rng.uniform(0.05, 0.85), rng.uniform(0.1, 14)) for _ in range(20)]
+        temps += [rng.uniform(240, 340) for _ in range(10)]
+    n = bad = 0
+    worst = 0.0
+    br = {}
+    for h, dens, vth in geos:
+        road = uwg.Element(.1, 0.9, [0.5], [uwg.Material(1., 1e6, 'm')], 0.2, 293., 1, 'road')
+        u = uwg.UCMDef(h, dens, vth, 0.1, 0., 0., 293., 0.01, 2., NS(windMin=1.), 0.25, 0.5, .2, road)
+        for tr in temps:
+            for k in range(3, 13):
+                for mant in ((1., -8.) if quick else (1., -1., 3., -8.)):
+                    dT = mant * 10. ** -k
+                    tw = tr + dT
+                    if tw == tr:
+                        continue
+                    er, ew = rng.uniform(.5, 1), rng.uniform(.5, 1)
+                    r = uwg.infracalcs(u, NS(infra=5.67e-8 * tr ** 4.), er, ew, tr, tw)[0]
+                    w = uwg.infracalcs(u, NS(infra=5.67e-8 * tw ** 4.), er, ew, tr, tw)[1]
+                    n += 1
+                    br['1e-%d' % k] = br.get('1e-%d' % k, 0) + 1
+                    gain_r, gain_w = u.canWidth * r, 2 * h * w
+                    size = max(abs(gain_r), abs(gain_w))
+                    rel = abs(gain_r + gain_w) / size if size > 0 else (0.0 if gain_r == gain_w == 0 else float('inf'))
+                    worst = max(worst, rel)
+                    msg = None
+                    if rel > 1e-12:
+                        msg = 'road gains %.12e W/m, walls gain %.12e W/m: sum / size = %.3e' % (gain_r, gain_w, rel)
+                    elif (r > 0) != (tw > tr) or (w > 0) != (tr > tw):
+                        msg = 'heat flows towards the warmer surface: road %r, wall %r W/m2' % (r, w)
+                    if msg:
+                        bad += 1
+                        if bad <= 2:
+                            violation('road<->wall long-wave exchange at nearly equal surface temperatures',
+                                      {'level': 'float', 'op': 'infra', 'bldHeight': h, 'bldDensity': dens, 'verToHor': vth,
+                                       'T_road': tr, 'T_wall_minus_T_road': tw - tr, 'e_road': er, 'e_wall': ew,
+                                       'sky': 'in equilibrium with the receiving surface'}, msg,
+                                      'canWidth * (road <- walls) + 2 bldHeight * (walls <- road) = 0 relative to the '
+                                      'exchange (1e-12; rounding gives ~2e-16); heat flows from warm to cold')
+    chk.direct('longwave-exchange-near-equal-temperatures(float, real UCMDef + infracalcs)', n, n,
+               'road and wall surface temperatures 1e-3 .. 1e-12 K apart (both signs, mantissas 1 / 3 / 8; 6 base '
+               'temperatures 250..330 K incl. one taken from a run; 6 canyon geometries): the two exchange terms, each '
+               'isolated by a sky in equilibrium with the receiving surface, are equal and opposite when weighted by '
+               'road width and 2 x height, RELATIVE to the exchange (1e-12), and have the sign of the temperature '
+               'difference', mismatches=bad, branches=br)
+    chk.measurements['near_equal_temperatures_worst_relative_imbalance'] = float('%.3g' % worst)
+
+
+def custom_stock_consistency(chk, violation):
+    """canyon-stock-averages on stocks with user-defined archetypes: NEW types (rows after the 16 DOE types) and
+    customs REPLACING a DOE type, their wall darker / lighter than the override, alone or mixed with DOE rows."""
+    import s2_util as S
+    import uwgutil as UU
+    rng = chk.rng
+    quick = chk.tier == 'quick'
+    uwg = UU.uwg_mod()
+    new3 = S.spec_new_types(3)
+    repl = dict(type='largeoffice', era='pst80', src=(3, 1, 0))
+    members = [
+        ('one new type + one DOE row', [new3[0]], [('midriseapartment', 'pst80')]),
+        ('new types only', new3[:2], []),
+        ('custom replacing a DOE type + one DOE row', [repl], [('warehouse', 'pre80')]),
+        ('new type + replacing custom + DOE row', [new3[1], repl], [('hospital', 'new')]),
+        ('three new types + DOE row', new3, [('smalloffice', 'pre80')]),
+    ]
+    vals = {'albwall': [0.45, None, 0.02, 0.91, 0.0, 1.0], 'glzr': [None, 0.0, 0.35, 0.9], 'shgc': [None, 0.1, 0.8, 1.0],
+            'albroof': [None, 0.05, 0.7], 'vegroof': [None, 0.0, 0.6], 'flr_h': [None, 2.8, 6.5]}
+    n = bad = 0
+    br = {}
+    for i in range(len(members) * (2 if quick else 8)):
+        label, spec, extra = members[i % len(members)]
+        ov = {k: rng.choice(v) for k, v in vals.items()}
+        if i < len(members):
+            ov.update(albwall=0.45, glzr=0.35 if i % 2 else None, shgc=0.8 if i % 3 == 0 else None)
+        own = [rng.choice([0.03, 0.08, 0.2, 0.6]) for _ in spec]
+        bv, sv = S.custom_vector(uwg, spec)
+        for b, a in zip(bv, own):
+            b.wall.albedo = a
+            b.building.glazing_ratio = rng.choice([0.1, 0.25, 0.5])
+            b.building.shgc = rng.choice([0.25, 0.4, 0.6])
+        bld = S.bld_for(spec, extra)
+        case = {'level': 'generate', 'stock': bld, 'custom_archetypes': [
+            {'type': sp['type'], 'era': sp['era'], 'wall_albedo': a, 'glazing_ratio': b.building.glazing_ratio,
+             'shgc': b.building.shgc} for sp, a, b in zip(spec, own, bv)],
+            'overrides': ov, 'zone': '5A', 'what': label}
+        m = S.live_model(bld, zone='5A', epw=TORONTO, month=6, outdir=chk.work())
+        m.ref_bem_vector, m.ref_sch_vector = m._check_reference_data(bv, sv)
+        for k, v in ov.items():
+            setattr(m, k, v)
+        with core.quiet():
+            m.generate()
+        n += 1
+        br[label] = br.get(label, 0) + 1
+        fr = [b.frac for b in m.BEM]
+        aw = sum(f * b.wall.albedo for f, b in zip(fr, m.BEM))
+        rg = sum(f * b.building.glazing_ratio for f, b in zip(fr, m.BEM))
+        sh = sum(f * b.building.shgc for f, b in zip(fr, m.BEM))
+        msgs = []
+        if len(m.BEM) != len(bld):
+            msgs.append('%d archetypes simulated for %d stock rows' % (len(m.BEM), len(bld)))
+        if abs(m.UCM.alb_wall - aw) > 1e-12:
+            msgs.append('canyon reflects with wall albedo %r, the walls absorb with %r (area-weighted; walls: %r)' % (
+                m.UCM.alb_wall, aw, [(b.bldtype, b.wall.albedo) for b in m.BEM]))
+        fa = (1 - rg) * (1 - aw) + rg * (1 - 0.75 * sh)
+        if abs(m.UCM.facAbsor - fa) > 1e-12:
+            msgs.append('facade absorptivity %r, buildings give %r' % (m.UCM.facAbsor, fa))
+        for key, get in (('albwall', lambda b: b.wall.albedo), ('glzr', lambda b: b.building.glazing_ratio),
+                         ('shgc', lambda b: b.building.shgc)):
+            if ov[key] is not None and any(get(b) != ov[key] for b in m.BEM):
+                msgs.append('%s override %r not on every simulated building: %r' % (
+                    key, ov[key], [(b.bldtype, get(b)) for b in m.BEM]))
+        if msgs:
+            bad += 1
+            if bad <= 2:
+                violation('stock averages of the canyon disagree with the simulated buildings (user-defined archetypes)',
+                          case, ' | '.join(msgs[:3]),
+                          'UCM.alb_wall = sum frac_j wall_j.albedo; facAbsor from the same buildings; a given override on '
+                          'every simulated building (DOE or user-defined)')
+    chk.direct('canyon-stock-averages(user-defined archetypes: new types and customs replacing DOE types)', n, n,
+               'real generate() on stocks with archetypes handed over in ref_bem_vector: NEW type names (rows after the '
+               '16 DOE types; 1-3 of them, alone or beside a DOE row) and customs REPLACING a DOE type, own wall albedo '
+               '0.03-0.6 (darker and lighter than the override), own glazing ratio / SHGC; x optional overrides (albwall '
+               '0.45 / unset / 0 / 1 ..., glzr, shgc, albroof, vegroof, flr_h): the wall albedo the canyon reflection '
+               'model is constructed with and the facade absorptivity equal the area-weighted values of the buildings '
+               'that are simulated (1e-12); a given albwall / glzr / shgc is on every simulated building',
+               mismatches=bad, branches=br)
+
+
 # ------------------------------------------------------------------------------- live simulations
 TORONTO = 'tests/epw/CAN_ON_Toronto.716240_CWEC.epw'
 SINGAPORE = 'resources/SGP_Singapore.486980_IWEC.epw'
@@ -1410,6 +1567,8 @@ def run(chk):
     infs = [gen_infra(rng) for _ in range(400 if quick else 4000)]
     infs += [gen_infra(rng, 'recip', geom_u=u) for g, u in zip(geoms, ucms)
              if u is not None and g['kind'] == 'pyth'][:60]
+    infs += near_infra_cases(rng, 60 if quick else 600, [u for g, u in zip(geoms, ucms)
+                                                          if u is not None and g['kind'] == 'pyth'])
     pairs, bad = [], 0
     for c in infs:
         res = call_infra(pkg.infracalcs, c)
@@ -1424,13 +1583,17 @@ def run(chk):
                    classify=lambda line, impl: 'ok')
     chk.direct('longwave-oracle(infracalcs)', len(infs), len(infs),
                'T5 (exchange terms isolated by zeroing the other emissivity, weighted by road '
-               'width and 2 x height) and T6 (equilibrium) on the exact results of the real routine',
+               'width and 2 x height) and T6 (equilibrium) on the exact results of the real routine; family `near`: '
+               'road and wall temperatures 1e-3 .. 1e-12 K apart (both signs), where the exchange is tiny but must '
+               'still cancel exactly',
                mismatches=bad, branches={k: sum(1 for c in infs if c['kind'] == k)
-                                         for k in ('random', 'equil', 'recip')})
+                                         for k in ('random', 'equil', 'recip', 'near')})
+    near_float_pass(chk, violation)
 
     # ---------------------------------------------------------------- live simulations
     live_stock_runs(chk, violation)
     canyon_albedo_consistency(chk, violation)
+    custom_stock_consistency(chk, violation)
     kernel_circumstances(chk, pkg, violation)
     reuse_ties(chk, pkg, violation)
     dictionary_route(chk, violation)
